@@ -126,6 +126,16 @@ func (e *Enc) encodeTop(fn *ssa.Function, fc *FuncContract, name string) {
 	}
 	// no monitor lock is held on entry (unless the contract says "holds")
 	e.assume(eq(e.get(st, e.heldComp()), "((as const (Array Ref Bool)) false)"))
+	// callback ghosts start empty: nothing passed yet, no call has returned false yet
+	for _, cn := range e.compOrder {
+		c := e.comps[cn]
+		switch {
+		case strings.HasPrefix(cn, "alltrue_"):
+			e.assume(e.get(st, c))
+		case strings.HasPrefix(cn, "passed") && strings.HasPrefix(c.Sort, "(Array ") && strings.HasSuffix(c.Sort, " Bool)") && c.Kind == "ghost" && strings.HasPrefix(c.Fam, "G:calls:dyn:"):
+			e.assume(eq(e.get(st, c), "((as const "+c.Sort+") false)"))
+		}
+	}
 	entry := st.clone()
 	fr.entry = entry
 	// function-local definitions pinned to the entry state
